@@ -260,6 +260,14 @@ class PrimMixin:
             return SliceV(args[0], args[1], None)
         return SliceV(*args)
 
+    def p_builtin_super(self, args, kw, st, fr, node):
+        """super(Class, self): the base class as an opaque value named after the base expression in the class statement
+        (`class Matcher(htmc.Matcher)` -> htmc.Matcher), so that a method call resolves to the contract of that name"""
+        from .values import ClassV
+        if len(args) == 2 and isinstance(args[0], ClassV) and args[0].node.bases:
+            return Opaque(ast.unparse(args[0].node.bases[0]))
+        raise Unsupported("super() in this form", node)
+
     def p_builtin_str(self, args, kw, st, fr, node):
         if args and isinstance(args[0], (int, str)) and not isinstance(args[0], bool):
             return str(args[0])          # a literal: Python's own rendering
